@@ -283,9 +283,10 @@ class Frame():
 
         self.principal_stress = {}
 
+        key_width = len(str(coarsing - 1))
         for row in range(len(self.stress_tensor[1][0])):
             for column in range(len(self.stress_tensor[1][1])):
-                principal_component = np.linalg.eig(self.stress_tensor[0][f"{row}{column}"])
+                principal_component = np.linalg.eig(self.stress_tensor[0][f"{row:0{key_width}d}{column:0{key_width}d}"])
                 self.principal_stress[(self.stress_tensor[1][0][row], 
                                             self.stress_tensor[1][1][column])] = principal_component
         
